@@ -179,6 +179,21 @@ def _hand_registry():
         e = d * 2
         return da.stack([e, e + 1, d])[:, ::2], np.stack([a * 2, a * 2 + 1, a])[:, ::2]
 
+    @reg("take_single")
+    def _(p):
+        a = np.arange(3, dtype=np.int64)
+        return da.from_array(a, chunks=3)[[1]], a[[1]]
+
+    @reg("mul_mismatched_chunks")
+    def _(p):
+        a, b = np.array([2, 0], dtype=np.int64), np.array([1, 2], dtype=np.int64)
+        return da.from_array(a, chunks=1) * da.from_array(b, chunks=2), a * b
+
+    @reg("reshape_int_index")
+    def _(p):
+        a = np.arange(4, dtype=np.int64)
+        return da.from_array(a, chunks=2).reshape(4, 1)[1], a.reshape(4, 1)[1]
+
     @reg("persist_of_persist")
     def _(p):
         a, d = src(12, 5)
@@ -198,7 +213,7 @@ HAND_NAMES = (
     "full_sum_0d", "full_max_2d_0d", "sum_keepdims", "int_index_0d", "src_0d", "elemwise_0d_mix", "axis_sum_split2",
     "mean_float", "boolmask_unknown", "boolmask_sized", "random_generator", "random_state_slice", "from_delayed",
     "from_delayed_concat", "from_map", "ones_arange", "swv_sum", "rechunk_T", "cumsum_tail", "stack_shared",
-    "persist_of_persist", "optimized_input",
+    "persist_of_persist", "optimized_input", "take_single", "mul_mismatched_chunks",
 )
 
 
@@ -314,6 +329,16 @@ def _colls(x, y, entry):
     return [c for c in ([x, y] if entry.endswith("(x,y)") else [x]) if c is not None]
 
 
+def optimized_grid_differs(x):
+    """dask's own optimization of the RAW expression (simplify + lower, what dask.persist schedules) ends on a block
+    grid different from the advertised one (a rewrite changed the output block structure)."""
+    try:
+        low = x.expr.optimize(fuse=False)
+        return tuple(low.numblocks) != tuple(x.numblocks)
+    except Exception:
+        return False
+
+
 def classify_value(case, x, y, entry):
     """Signature of a documented finding for a WRONG VALUE / wrong metadata produced by `entry`."""
     try:
@@ -334,7 +359,8 @@ def classify(case, x, y, entry, exc):
     msg = f"{type(exc).__name__}: {exc}"
     cs = _colls(x, y, entry)
     try:
-        if entry in DASK_LEVEL_REBUILD and any(has_sliding_reduction(c) for c in cs) and "from_graph cannot find output block" in msg:
+        if entry in DASK_LEVEL_REBUILD and "from_graph cannot find output block" in msg and any(
+                has_sliding_reduction(c) or optimized_grid_differs(c) for c in cs):
             return SIG_FROM_GRAPH
         if entry in DASK_OPTIMIZE and any(has_reduction_node(c) for c in cs):
             # a raw Reduction's `_layer()` returns only the top layer of its lowering, keyed by the lowered name
@@ -349,6 +375,8 @@ def classify(case, x, y, entry, exc):
         k = programs.classify_known(case["prog"], msg) or classify_reshape(case["prog"], msg)
         if k:
             return k
+    if case.get("name") == "reshape_int_index" and "IndexError: tuple index out of range" in msg:
+        return SIG_RESHAPE
     return None
 
 
@@ -895,7 +923,10 @@ def run(ctx, replay=None):
 def known_probe(ctx):
     """Dedicated probes of the documented findings (KNOWN-FINDING lines while they still fail)."""
     for name, entries in (("full_sum_0d", ["x.compute", "dask.optimize(x)"]), ("full_max_2d_0d", ["x.compute", "dask.optimize(x)"]),
-                          ("swv_sum", ["x.compute", "dask.persist(x)", "dask.optimize(x)"])):
+                          ("swv_sum", ["x.compute", "dask.persist(x)", "dask.optimize(x)"]),
+                          ("take_single", ["x.compute", "dask.compute(x,delayed)"]),
+                          ("mul_mismatched_chunks", ["x.compute", "dask.optimize(x)"]),
+                          ("reshape_int_index", ["x.compute", "dask.optimize(x)"])):
         case = {"kind": "hand", "name": name, "params": {}, "sched": "sync", "follow": None, "entries": entries}
         for f in check_case(ctx, case, count=False) or []:
             ctx.fail(f["sig"], case, f["detail"])
